@@ -114,3 +114,47 @@ Theorem C07_reset_reasons_of_route_requests_are_code : forall e m0 acc egr r,
    access_reason (negb (ze_fresh e) || nonempty acc) (negb (ze_fresh e) || nonempty egr) = Some r).
 Proof. exact reset_reasons_single. Qed.
 Print Assumptions C07_reset_reasons_of_route_requests_are_code.
+
+(* tie to the source, geographic filters: which stops the walking tables are asked about.  src/geofilter.cpp and the
+   pre-filter of src/osrmgeofilter.cpp are read AS THEY ARE NOW by tools/gen_geo.py into TYPED expression trees (gen/Geo.v)
+   and evaluated by coq/Geo.v: int operations wrap to 32 bits, floating operations are exact rationals (float ROUNDING is
+   outside the model), every int -> float / float -> int conversion is a node.  The squared walking radius is (t*v)^2
+   for EVERY int t — "no limit" is sent as MAX_INT, whose square fits no int: the statement breaks if the body becomes
+   `t * t * v * v` (example GeoTie.wrong_tree_no_limit: the radius would be 1.39 m) or squares an int radius.  Rationals
+   are compared with == and <=. *)
+From Coq Require QArith Qround.
+Require TrV.Geo TrV.gen.Geo.
+From TrV Require Proofs.GeoTie.
+Module GEO.
+  Import Coq.QArith.QArith Coq.QArith.Qround TrV.Geo TrV.Proofs.GeoTie.
+  Local Open Scope Z_scope.
+  Theorem C07_walk_radius_is_code : forall (ie : ivar -> Z) (fe : fvar -> Q), in_int (ie IMaxT) = true ->
+    exists q, eval ie fe GG.gen_geo_max_dist_sq = Some (VF q) /\ (q == (inject_Z (ie IMaxT) * fe FSpeed) ^ 2)%Q.
+  Proof. exact max_dist_sq_is_code_square. Qed.
+  (* a larger maximum never loses a stop, and "no limit" (MAX_INT) loses none *)
+  Theorem C07_walk_radius_monotone : forall (d2 : Q) (t1 t2 : Z) (v : Q), 0 <= t1 <= t2 -> (0 <= v)%Q ->
+    (max_dist_sq t1 v <= max_dist_sq t2 v)%Q /\
+    (candidate d2 t1 v = true -> candidate d2 t2 v = true) /\
+    (in_int t1 = true -> candidate d2 t1 v = true -> candidate d2 INT_MAX v = true).
+  Proof.
+    intros d2 t1 t2 v Ht Hv. split; [exact (walk_radius_monotone t1 t2 v Ht Hv)|]. split.
+    - exact (candidate_monotone d2 t1 t2 v Ht Hv).
+    - intros Hi. exact (candidate_no_limit d2 t1 v (proj1 Ht) Hi Hv).
+  Qed.
+  (* the stops sent to the walking router are those with d2 <= (t*v)^2, d2 = dx^2 + dy^2; with none of them the answer is
+     the empty table and the router is not asked (the NO_ACCESS reasons above start from that table) *)
+  Theorem C07_osrm_prefilter_is_code : forall (ie : ivar -> Z) (fe : fvar -> Q) (asked : list nat),
+    in_int (ie IMaxT) = true -> ie ICandidates = Z.of_nat (length asked) ->
+    eval ie fe GG.gen_geo_osrm_prefilter_guard = Some (VB (candidate (env_d2 fe) (ie IMaxT) (fe FSpeed))) /\
+    (exists q, eval ie fe GG.gen_geo_node_dist_sq = Some (VF q) /\ (q == env_d2 fe)%Q) /\
+    GG.gen_geo_osrm_empty_returns_nothing = true /\
+    (eval ie fe GG.gen_geo_osrm_empty_test = Some (VB true) -> forall x maxt, Osrm.osrm_rows x asked maxt = Ok []).
+  Proof.
+    intros ie fe asked Hi Hn. split; [exact (osrm_prefilter_is_code ie fe Hi)|]. split.
+    - destruct (node_dist_sq_is_code ie fe) as [q [H1 [_ H2]]]. exists q. split; assumption.
+    - destruct (osrm_empty_is_code ie fe asked Hn) as [H1 [_ H2]]. split; assumption.
+  Qed.
+End GEO.
+Print Assumptions GEO.C07_walk_radius_is_code.
+Print Assumptions GEO.C07_walk_radius_monotone.
+Print Assumptions GEO.C07_osrm_prefilter_is_code.
